@@ -84,14 +84,23 @@ def sig_repeated(w):
     return bool(w.get('reinit')) and bool(w.get('impl_matches_pinned'))
 
 
+def sig_empty_word(w):
+    """open finding empty-word-crash: the command line contains an empty word and IndexError escaped DoitMain.run
+    (process_args evaluates arg[0] outside the try block) instead of `ERROR ... exit 3`"""
+    return bool(w.get('empty_word_crash'))
+
+
+SIGNATURES = {'empty-word-crash': sig_empty_word}
+
+
 # ----------------------------------------------------------------------------------------------
 
 def cli_eligible(case):
     if any(t.get('delayed') for t in case['tasks']):
         return False
-    if case['argv'] and case['argv'][0].startswith('-'):
-        return False
-    if any('=' in a for a in case['argv'][:1]):
+    # the first word that reaches the `run` command must not look like one of its own options
+    rest = [a for a in case['argv'] if not (a and a[0] != '-' and '=' in a)]
+    if rest and rest[0].startswith('-'):
         return False
     return True
 
@@ -145,11 +154,17 @@ def evaluate(cases, workdir, want_cli=True):
                               'impl_matches_pinned': a == (m.get('pinned') or {}).get('sel')})
         # ---- cli
         if cli is not None:
+            # the command line loses its name=value words before selection (Sel.planCli)
+            head = m['cli']
             exp_exit = 0 if head['sel'][0] == 'ok' else 3
+            if m.get('cli_crash'):
+                exp_exit = ['exc', 'IndexError']      # process_args on an empty word (open finding empty-word-crash)
             cli_ok = True
             if cli['exit'] != exp_exit:
                 cli_ok = False
                 r['div'].append('cli: exit %s, model %s (%s)' % (cli['exit'], exp_exit, cli['error']))
+            elif exp_exit == ['exc', 'IndexError']:
+                pass
             elif exp_exit == 0:
                 want = list(head['closure'])
                 if cli.get('actions_only'):
@@ -168,7 +183,7 @@ def evaluate(cases, workdir, want_cli=True):
                     cli_ok = False
             if cli['exit'] == 0 and exp_exit == 0:
                 # options / positional values seen by the actions of tasks named on the command line
-                for name, vals in m['pos']:
+                for name, vals in m['cli_pos']:
                     if name in cli['kwargs'] and list(cli['kwargs'][name].get('pos') or []) != vals:
                         r['div'].append('cli: %s received pos=%s, model %s' % (name, cli['kwargs'][name].get('pos'), vals))
             if cli_ok and exp_exit == 0 and m.get('chunked') is False:
@@ -177,7 +192,8 @@ def evaluate(cases, workdir, want_cli=True):
             mon = m.get('monitor', [])
             if mon:
                 r['viol'].append({'tier': 'cli', 'failed': mon, 'impl': {k: cli[k] for k in ('exit', 'error', 'processed', 'started', 'ran')},
-                                  'expected': spec, 'reinit': reinit, 'impl_matches_head': cli_ok and api_head_ok,
+                                  'expected': head, 'reinit': reinit, 'impl_matches_head': cli_ok and api_head_ok,
+                                  'empty_word_crash': bool(m.get('cli_crash')) and cli['exit'] == ['exc', 'IndexError'],
                                   'impl_matches_pinned': api.get('sel') == (m.get('pinned') or {}).get('sel')})
     return res
 
@@ -189,7 +205,7 @@ def nontrivial(case, m):
     if len(sel[1]) >= 2:
         return True
     toks = list(case['argv']) or list(case.get('default') or [])
-    targets = [tg for t in sellib.flat_defs(case) for tg in (t[1].get('targets') or [])]
+    targets = [tg for t in sellib.flat_defs(case) for tg in sellib.mtargets(t[1])]
     return any(('*' in a) or a.startswith('-') or a in targets for a in toks)
 
 
@@ -197,7 +213,7 @@ def classify(case, m, st):
     toks = list(case['argv']) or list(case.get('default') or [])
     names = sellib.all_names(case)
     groups = [t['name'] for t in case['tasks'] if t.get('subs') is not None]
-    targets = [tg for t in sellib.flat_defs(case) for tg in (t[1].get('targets') or [])]
+    targets = [tg for t in sellib.flat_defs(case) for tg in sellib.mtargets(t[1])]
     st.count('ntasks:%d' % min(8, len(names)))
     st.count('argv_len:%d' % min(6, len(case['argv'])))
     st.count('source:%s' % ('argv' if case['argv'] else 'default_tasks' if case.get('default') is not None else 'all'))
@@ -220,8 +236,12 @@ def classify(case, m, st):
             st.count('arg:subtask' if ':' in a else 'arg:name')
         elif a in targets:
             st.count('arg:target')
+        elif a == '':
+            st.count('arg:empty-word')
         elif a.startswith('-'):
             st.count('arg:option-token')
+        elif '=' in a and case['argv']:
+            st.count('arg:name=value-word')
         else:
             st.count('arg:other(unknown/value)')
             if any(ch in a for ch in '{}%'):
@@ -235,6 +255,32 @@ def classify(case, m, st):
                 st.count('attr:' + key)
         if any('*' in x for x in d.get('task_dep', [])):
             st.count('attr:wild_dep')
+    def form(e):
+        if isinstance(e, dict):
+            return 'Path'
+        return 'abs' if e.startswith(sellib.ABS) else 'dot-slash' if e.startswith('./') else 'plain'
+
+    def fileid(e):
+        b = sellib.mstr(e)
+        b = b[len(sellib.ABS) + 1:] if b.startswith(sellib.ABS + '/') else b
+        while b.startswith('./') or b.startswith('/'):
+            b = b[1:] if b.startswith('/') else b[2:]
+        return b
+    decl = {}
+    for full, d, grp, is_group in sellib.flat_defs(case):
+        for e in (d.get('targets') or []) if not is_group else []:
+            if form(e) != 'plain':
+                st.count('target-form:' + form(e))
+            decl[fileid(e)] = sellib.mstr(e)
+    for full, d, grp, is_group in sellib.flat_defs(case):
+        for e in (d.get('file_dep') or []) if not is_group else []:
+            if form(e) == 'Path':
+                st.count('file_dep-form:Path')
+            if fileid(e) in decl and decl[fileid(e)] != sellib.mstr(e):
+                st.count('file_dep-spelled-differently-from-the-target')
+    for a in toks:
+        if a not in targets and fileid(a) in decl and a not in names:
+            st.count('arg:target-file-under-another-spelling')
     if 'spec' in m:
         st.count('spec:%s' % m['spec']['sel'][0])
         st.count('head:%s' % m['head']['sel'][0])
@@ -304,7 +350,7 @@ def violation_kind(r):
     if not r['viol']:
         return None
     v = r['viol'][-1] if any(x['tier'] == 'cli' for x in r['viol']) else r['viol'][0]
-    return (False, v['tier'], tuple(v['failed']))
+    return (sig_empty_word(v), v['tier'], tuple(v['failed']))
 
 
 def shrink(case, workdir, budget=60):
@@ -339,7 +385,7 @@ def make_witness(case, r):
     v = v[0]
     w = {'case': case, 'rendered': sellib.render(case), 'tier': v['tier'], 'failed': v['failed'], 'impl': v['impl'],
          'expected': v['expected'], 'reinit': v['reinit'], 'impl_matches_head': v['impl_matches_head'],
-         'impl_matches_pinned': v.get('impl_matches_pinned'),
+         'impl_matches_pinned': v.get('impl_matches_pinned'), 'empty_word_crash': v.get('empty_word_crash', False),
          'model_of_code': r['model'].get('head')}
     return w
 
